@@ -122,48 +122,79 @@ theorem c19_recorded_at_snapshot (r : Rep) (n : String) (u : Bool)
 
 /-! ### the new volume's controller -/
 
-/-- **C19 (gate).** If the polling of the clone status ended on `error` (or the status call failed),
-    `Start` fails and the replica is not part of the volume afterwards: neither readable nor writable. -/
-theorem c19_error_not_served (c : Ctl) (h : CInv c) (addr : String) (size : Nat) (clone : String)
-    (srw : Bool) (rev : Option Nat) (ck : CkEnv)
-    (h0 : ¬ c.replicas.length > 0) (hl : addr = full c.maxRev)
-    (he : clone = "error" ∨ clone = "callfail") :
-    (c.stepStart addr true size true clone srw rev ck).2 = .failed ∧
-    (c.stepStart addr true size true clone srw rev ck).1.hasReplica addr = false := by
-  unfold stepStart
+/-- **C19 (gate).** If the polling of the clone status of a replica ended on `error` (or the status
+    call failed), its attachment fails — `Start` returns the error — and the replica is not part of
+    the volume afterwards: neither readable nor writable. -/
+theorem c19_error_not_served (c : Ctl) (e : StartEnv) (hno : c.hasReplica e.addr = false)
+    (he : e.clone = "error" ∨ e.clone = "callfail") :
+    (c.startOne e).2 = false ∧ (c.startOne e).1.hasReplica e.addr = false := by
+  have hsame : (c.reserveId.adoptSize e.size).replicas = c.replicas := by
+    unfold adoptSize; split <;> rfl
+  unfold startOne
   simp only
-  rw [if_neg h0, if_neg (by simp [hl]), if_neg (by simp), if_neg (by simp), if_pos he]
-  refine ⟨rfl, ?_⟩
-  show (Ctl.startFront _).hasReplica addr = false
-  have e : ∀ x : Ctl, x.startFront.replicas = x.replicas := by
-    intro x; unfold startFront; split <;> rfl
-  unfold hasReplica
-  rw [e, removeReplica_replicas, List.any_eq_false]
-  intro r hr
-  have := (List.mem_filter.mp hr).2
-  simpa using this
+  split
+  · exact ⟨rfl, hno⟩
+  · split
+    · exact ⟨rfl, by show ((c.reserveId.adoptSize e.size).replicas.any _) = false; rw [hsame]; exact hno⟩
+    · split
+      · exact ⟨rfl, by show ((c.reserveId.adoptSize e.size).replicas.any _) = false; rw [hsame]; exact hno⟩
+      · rename_i c1 ec
+        have := canAdd_none_eq _ _ _ ec
+        subst this
+        repeat' split
+        all_goals first
+          | exact ⟨rfl, by show ((c.reserveId.adoptSize e.size).replicas.any _) = false; rw [hsame]; exact hno⟩
+          | contradiction
+          | (refine ⟨rfl, ?_⟩
+             show (Ctl.removeReplica _ _ _).hasReplica e.addr = false
+             unfold hasReplica
+             rw [removeReplica_replicas, List.any_eq_false]
+             intro r hr
+             have := (List.mem_filter.mp hr).2
+             simpa using this)
 
-/-- **C19 (gate, converse).** A `Start` that succeeds ended its polling on a status other than
-    `error`: the polling loop (T1 fact `cloneStatusLoop`) leaves only on `completed` / `NA` / `error`. -/
-theorem c19_served_only_when_done (c : Ctl) (addr : String) (cok : Bool) (size : Nat) (swo : Bool) (clone : String)
-    (srw : Bool) (rev : Option Nat) (ck : CkEnv) (h0 : ¬ c.replicas.length > 0)
-    (hok : (c.stepStart addr cok size swo clone srw rev ck).2 = .ok) :
-    clone ≠ "error" ∧ clone ≠ "callfail" := by
+theorem startOne_true_clone (c : Ctl) (e : StartEnv) (h : (c.startOne e).2 = true) :
+    e.clone ≠ "error" ∧ e.clone ≠ "callfail" := by
+  unfold startOne at h
+  simp only at h
+  repeat' split at h
+  all_goals first | cases h | skip
+  rename_i h4 _
+  exact ⟨fun e' => h4 (Or.inl e'), fun e' => h4 (Or.inr e')⟩
+
+theorem startLoop_true_clone (es : List StartEnv) : ∀ (c : Ctl), (c.startLoop es).2 = true →
+    ∀ e ∈ es, e.clone ≠ "error" ∧ e.clone ≠ "callfail" := by
+  induction es with
+  | nil => intro c _ e he; cases he
+  | cons x xs ih =>
+    intro c h e he
+    unfold startLoop at h
+    split at h
+    · rename_i hx
+      rcases List.mem_cons.mp he with rfl | he
+      · exact startOne_true_clone c e hx
+      · exact ih _ h e he
+    · cases h
+
+/-- **C19 (gate, converse).** A `Start` that succeeds ended the polling of every replica it attached
+    on a status other than `error`: the polling loop (T1 fact `cloneStatusLoop`) leaves only on
+    `completed` / `NA` / `error`. -/
+theorem c19_served_only_when_done (c : Ctl) (es : List StartEnv) (ck : CkEnv) (h0 : ¬ c.replicas.length > 0)
+    (hok : (c.stepStart es ck).2 = .ok) :
+    ∀ e ∈ es, e.clone ≠ "error" ∧ e.clone ≠ "callfail" := by
   unfold stepStart at hok
-  simp only at hok
-  rw [if_neg h0] at hok
-  by_cases h1 : addr ≠ full c.maxRev
-  · rw [if_pos h1] at hok; cases hok
-  · rw [if_neg h1] at hok
-    by_cases h2 : (!cok) = true
-    · rw [if_pos h2] at hok; cases hok
-    · rw [if_neg h2] at hok
-      by_cases h3 : (!swo) = true
-      · rw [if_pos h3] at hok; cases hok
-      · rw [if_neg h3] at hok
-        by_cases h4 : clone = "error" ∨ clone = "callfail"
-        · rw [if_pos h4] at hok; cases hok
-        · exact ⟨fun e => h4 (Or.inl e), fun e => h4 (Or.inr e)⟩
+  split at hok
+  · intro e he; cases he
+  · rename_i e0 rest
+    rw [if_neg h0] at hok
+    repeat' split at hok
+    all_goals first | cases hok | skip
+    rename_i hl _
+    have : ((c.startReset.startLoop (e0 :: rest)).2 = true) := by
+      cases hh : (c.startReset.startLoop (e0 :: rest)).2
+      · exact absurd hh hl
+      · rfl
+    exact startLoop_true_clone _ _ this
 
 /-! ### non-vacuity -/
 
